@@ -65,7 +65,7 @@ def gen_cases(ctx, n, maxsize, start=0):
             kind = "ldmjob"; x, jmb = datagen.ldmjob(rng); api = "c2"
             p = {100: rng.choice([1, 3]), 160: 1, 400: rng.choice([1, 1, 2]), 401: jmb << 20}
             if rng.random() < 0.5: p[201] = 1
-        if i in (301, 401, 501, 701, 801, 901, 1001, 1201) or (not ctx.quick() and i % 100 == 1 and i % 500 != 201):
+        if i in (301, 401, 501, 701, 801, 901, 1001, 1201) or (not ctx.quick() and i % 500 == 301):
             # a long-distance match split at a block edge with a remainder of 1 .. minMatch-1 bytes behind the edge, another match after it in the same job
             kind = "ldmedge"; k_ = (i // 100) % 8
             x = datagen.ldmedge(rng, [1, 2, 3, 4, 5, 6, 1, 3][k_]); api = "c2"
